@@ -182,8 +182,29 @@ def _one_mono(arg):
         if prev is not None:
             subset.append(1 if prev <= ids else 0)
         prev = ids
-    ev = dict(tid=0, ev="Mono", ntp=ntp, nfn=nfn, ap6=ap6, aph6=aph6, map6=map6 if map6 else list(ap6), subset=subset)
+    ev = dict(tid=0, ev="Mono", ntp=ntp, nfn=nfn, ap6=ap6, aph6=aph6, map6=map6 if map6 else list(ap6), subset=subset, pfeq=[1] * len(ntp))
     return ev, dict(mode=mode, ladder=ladder, policy=prm["policy"], n=len(results), g=g, ntp=ntp, nfn=nfn, ap6=ap6, family="traffic_light_2d" if k % 4 == 3 else "autoware_3d")
+
+
+_LCFG = {}
+
+
+def _label_config(names):
+    import shutil
+    import tempfile
+
+    from perception_eval.config import PerceptionEvaluationConfig
+
+    if names not in _LCFG:
+        tmp = tempfile.mkdtemp(prefix="verif_mono_")
+        try:
+            _LCFG[names] = PerceptionEvaluationConfig([], "base_link", tmp, {
+                "evaluation_task": "detection", "target_labels": list(names), "label_prefix": "autoware", "merge_similar_labels": False, "max_x_position": 200.0,
+                "max_y_position": 200.0, "min_point_numbers": [0] * len(names), "center_distance_thresholds": [1.0], "plane_distance_thresholds": [1.0],
+                "iou_2d_thresholds": [0.5], "iou_3d_thresholds": [0.5]})
+        finally:
+            shutil.rmtree(tmp, ignore_errors=True)
+    return _LCFG[names]
 
 
 def _one_mono_labels(arg):
@@ -227,11 +248,25 @@ def _one_mono_labels(arg):
         cur[i] = rng.choice([t for t in grid if t > cur[i]])
         ladder.append(list(cur))
     gd = {lb: sum(1 for o in gts if o.semantic_label.label == lb) for lb in labels}
-    ntp, nfn, map6, subset = [], [], [], []
+    ntp, nfn, map6, subset, pfeq = [], [], [], [], []
     prev = None
+    ec = _label_config(tuple(names))
+    from perception_eval.evaluation.result.perception_frame_config import CriticalObjectFilterConfig, PerceptionPassFailConfig
+    from perception_eval.evaluation.result.perception_pass_fail_result import PassFailResult
+
+    # the frame's critical filter lists the same labels in another order (each configuration takes its own list)
+    crit = CriticalObjectFilterConfig(ec, names[1:] + names[:1], max_x_position_list=[200.0] * 3, max_y_position_list=[200.0] * 3)
     for thrs in ladder:
         tp, _ = get_positive_objects(results, labels, MODES[mode], list(thrs))
         _, fn = get_negative_objects(gts, results, labels, MODES[mode], list(thrs))
+        if mode == "plane":
+            # the frame-level pass / fail decision (plane distance) is the same decision
+            pf = PassFailResult(1000, 0, crit, PerceptionPassFailConfig(ec, list(names), list(thrs)))
+            pf.evaluate(list(results), list(gts))
+            pfeq.append(1 if ({vid(r.estimated_object) for r in pf.tp_object_results} == {vid(r.estimated_object) for r in tp}
+                              and sorted(vid(o) for o in pf.fn_objects) == sorted(vid(o) for o in fn)) else 0)
+        else:
+            pfeq.append(1)
         m_ = Map({lb: [[r for r in results if r.estimated_object.semantic_label.label == lb]] for lb in labels}, gd, labels, MODES[mode], list(thrs)).map
         ids = {vid(r.estimated_object) for r in tp}
         ntp.append(len(ids))
@@ -240,7 +275,7 @@ def _one_mono_labels(arg):
         if prev is not None:
             subset.append(1 if prev <= ids else 0)
         prev = ids
-    ev = dict(tid=0, ev="Mono", ntp=ntp, nfn=nfn, ap6=list(map6), aph6=list(map6), map6=map6, subset=subset)
+    ev = dict(tid=0, ev="Mono", ntp=ntp, nfn=nfn, ap6=list(map6), aph6=list(map6), map6=map6, subset=subset, pfeq=pfeq)
     return ev, dict(mode=mode, labels=names, ladder=ladder, n=len(results), ntp=ntp, nfn=nfn, ap6=map6, family="per-label-threshold-lists")
 
 
